@@ -146,6 +146,18 @@ func (fr *Frame) analyse(e *Enc) bool {
 	for i, h := range hs {
 		fr.loops[h].ordinal = i + 1
 	}
+	if fr.contract != nil && fr.parent == nil {
+		for n := range fr.contract.Invs {
+			if n < 1 || n > len(hs) {
+				e.fatalf("%s: loop %d invariant, but the function has %d loops (ordinals start at 1)", fr.contract.File, n, len(hs))
+			}
+		}
+		for n := range fr.contract.Decr {
+			if n < 1 || n > len(hs) {
+				e.fatalf("%s: loop %d decreases, but the function has %d loops (ordinals start at 1)", fr.contract.File, n, len(hs))
+			}
+		}
+	}
 	// cross-check with the syntax: number of loop statements
 	if syn := fn.Syntax(); syn != nil {
 		var stmts []ast.Node
